@@ -88,6 +88,8 @@ def run(ctx):
     data, _ = ctx.generate("Gen_C18", cfg_text="INIT GenInit\nNEXT GenNext\nCONSTANTS NShort = %d\n" % ctx.pick(150, 0), env=env, heap="8g")
     cases = []
     hosts = sorted(tuple(h) for h in data["hosts"])
+    # the IDN leading labels of Gen_C18!Variants are written in Unicode ('café.facebook.com', 'новости.www.t.me')
+    spelling.update({"xn--caf-dma": "caf\u00e9", "xn--b1amnebsh": "\u043d\u043e\u0432\u043e\u0441\u0442\u0438"})
     # look-alikes that only differ by a letter whose non-ASCII case folding meets an ASCII one (dotless i, long s, kelvin):
     # distinct registrable domains, hence members of no list
     twins = {"i": "\u0131"}          # (long s and the kelvin sign are mapped to s and k by IDNA: not distinct domains)
@@ -120,7 +122,7 @@ def run(ctx):
     ctx.exhaustive = not ctx.quick
     ctx.extra["hosts"] = len(hosts)
     ctx.rule = ("hosts derived by TLC from the domain lists (%s shortener domains, all YouTube domains, the Facebook / Twitter / Instagram / Telegram patterns): "
-                "as is, upper-cased, with leading labels (www, a.b, l), with a foreign label glued to the first label, followed by a foreign registrable domain; x 3 paths "
+                "as is, upper-cased, with leading labels (www, a.b, l, and two IDN labels written in Unicode), with a foreign label glued to the first label, followed by a foreign registrable domain; x 3 paths "
                 "x 3 decoy settings (userinfo / query / fragment texts containing site domains); each as http, https, scheme-less, '//' and SplitResult; 7 site predicates + "
                 "is_homepage, could_be_html, has_special_host, get_hostname; non-trivial = some predicate true or a decoy present"
                 % ("all" if not ctx.quick else "150 sampled"))
